@@ -1,26 +1,769 @@
-//! prototype
-use rotonda::verif::bmp_conn::{Item, TracingMode, World};
-use verif_harness::bmp::{self, Spec};
+//! ConnMetrics engine (extends C15; Prometheus clause of C19).
+//!
+//! `w|…` cases: the real accept loop of `BmpTcpInRunner` and the real
+//! `RouterHandler::read_from_router` on in-memory connections
+//! (`rotonda::verif::bmp_conn::World`), real links on the unit's real gate.
+//! After every event the exported metrics (real `Source::append` into a real
+//! Prometheus `Target`, plus the atomics) are compared with the Lean model
+//! (`Model/ConnMetrics.lean`, driver `rmodel-connmetrics`).
+//! `p|…` cases: arbitrary `Target::append` call sequences on the real
+//! `metrics::Target`; the text is compared byte for byte with the model's
+//! `render` and the verdict of the model's grammar with an independent parser.
+//!
+//! Oracle (Rust, no Lean): a ledger kept from the traffic alone — connections
+//! made / ended, messages sent per connection and type, lifecycle violations
+//! per RFC 7854 (first message Initiation, nothing after Termination, Route
+//! Monitoring / Peer Down only for a peer that is up, no second Peer Up),
+//! unparsable frames and read errors, which links could take an update at each
+//! moment and how many updates each link actually received.
+use std::collections::{BTreeMap, BTreeSet};
+use std::net::SocketAddr;
+use std::sync::Arc;
+use std::time::{Duration, Instant};
+
+use futures::FutureExt;
+use rotonda::comms::{AnyDirectUpdate, DirectLink, Link};
+use rotonda::metrics::{Metric, MetricType, MetricUnit, OutputFormat, Target};
+use rotonda::payload::Update;
+use rotonda::verif::bmp_conn::{Conn, Item, Sink, TracingMode, World};
+use rotonda::verif::gate as vg;
+use verif_harness::bmp::{self, Spec, NHDR};
+use verif_harness::{join, parse_args, replay_cases, rng::Rng, Recorder};
+
+const SHARED_SIG: &str = "identity:routers-from-one-address-share-router-id";
+const ESC_SIG: &str = "prometheus:label-value-not-escaped";
+const DUP_SIG: &str = "prometheus:duplicate-help-type-lines";
+
+// ------------------------------------------------------------------ exposition parser (independent of Lean)
+#[derive(Clone, Debug, PartialEq)]
+enum PLine { Help(String, String), Type(String, String), Sample(String, Option<Vec<(String, String)>>, String) }
+
+fn lname_start(c: char) -> bool { c.is_ascii_alphabetic() || c == '_' }
+fn lname_char(c: char) -> bool { lname_start(c) || c.is_ascii_digit() }
+fn name_start(c: char) -> bool { lname_start(c) || c == ':' }
+fn name_char(c: char) -> bool { name_start(c) || c.is_ascii_digit() }
+fn is_name(s: &[char]) -> bool { !s.is_empty() && name_start(s[0]) && s[1..].iter().all(|c| name_char(*c)) }
+fn is_lname(s: &[char]) -> bool { !s.is_empty() && lname_start(s[0]) && s[1..].iter().all(|c| lname_char(*c)) }
+fn is_number(s: &[char]) -> bool {
+    let d = if s.first() == Some(&'-') { &s[1..] } else { s };
+    !d.is_empty() && d.iter().all(|c| c.is_ascii_digit())
+}
+fn doc_ok(s: &[char]) -> bool {
+    let mut i = 0;
+    while i < s.len() {
+        if s[i] == '\\' { if i + 1 < s.len() && (s[i + 1] == '\\' || s[i + 1] == 'n') { i += 2; continue; } return false; }
+        if s[i] == '\n' { return false; }
+        i += 1;
+    }
+    true
+}
+fn take_while(s: &[char], p: fn(char) -> bool) -> (&[char], &[char]) {
+    let n = s.iter().take_while(|c| p(**c)).count();
+    (&s[..n], &s[n..])
+}
+fn not_nl(c: char) -> bool { c != '\n' }
+fn strip<'a>(s: &'a [char], p: &str) -> Option<&'a [char]> {
+    let pc: Vec<char> = p.chars().collect();
+    if s.len() >= pc.len() && s[..pc.len()] == pc[..] { Some(&s[pc.len()..]) } else { None }
+}
+fn parse_lval(s: &[char]) -> Option<(String, &[char])> {
+    let mut out = String::new();
+    let mut i = 0;
+    loop {
+        let c = *s.get(i)?;
+        if c == '"' { return Some((out, &s[i + 1..])); }
+        if c == '\n' { return None; }
+        if c == '\\' {
+            let d = *s.get(i + 1)?;
+            if d == '\\' || d == '"' { out.push(d); } else if d == 'n' { out.push('\n'); } else { return None; }
+            i += 2;
+            continue;
+        }
+        out.push(c);
+        i += 1;
+    }
+}
+fn parse_pair(s: &[char]) -> Option<((String, String), &[char])> {
+    let (n, rest) = take_while(s, lname_char);
+    if !is_lname(n) || rest.len() < 2 || rest[0] != '=' || rest[1] != '"' { return None; }
+    let (v, rest) = parse_lval(&rest[2..])?;
+    Some(((n.iter().collect(), v), rest))
+}
+fn parse_labels(s: &[char]) -> Option<(Vec<(String, String)>, &[char])> {
+    if s.first() == Some(&'}') { return Some((vec![], &s[1..])); }
+    let (p, mut rest) = parse_pair(s)?;
+    let mut out = vec![p];
+    loop {
+        match rest.first() {
+            Some('}') => return Some((out, &rest[1..])),
+            Some(',') => { let (p, r) = parse_pair(&rest[1..])?; out.push(p); rest = r; }
+            _ => return None,
+        }
+    }
+}
+fn parse_value(s: &[char]) -> Option<(String, &[char])> {
+    if s.first() != Some(&' ') { return None; }
+    let (v, rest) = take_while(&s[1..], not_nl);
+    if !is_number(v) || rest.first() != Some(&'\n') { return None; }
+    Some((v.iter().collect(), &rest[1..]))
+}
+fn parse_line(s: &[char]) -> Option<(PLine, &[char])> {
+    for (kw, is_help) in [("# HELP ", true), ("# TYPE ", false)] {
+        if let Some(r) = strip(s, kw) {
+            let (n, rest) = take_while(r, name_char);
+            if !is_name(n) || rest.first() != Some(&' ') { return None; }
+            let (d, rest) = take_while(&rest[1..], not_nl);
+            if rest.first() != Some(&'\n') { return None; }
+            let ds: String = d.iter().collect();
+            if is_help {
+                if !doc_ok(d) { return None; }
+                return Some((PLine::Help(n.iter().collect(), ds), &rest[1..]));
+            }
+            if !["counter", "gauge", "histogram", "summary"].contains(&ds.as_str()) { return None; }
+            return Some((PLine::Type(n.iter().collect(), ds), &rest[1..]));
+        }
+    }
+    let (n, rest) = take_while(s, name_char);
+    if !is_name(n) { return None; }
+    let name: String = n.iter().collect();
+    if rest.first() == Some(&'{') {
+        let (ls, rest) = parse_labels(&rest[1..])?;
+        let (v, rest) = parse_value(rest)?;
+        return Some((PLine::Sample(name, Some(ls), v), rest));
+    }
+    let (v, rest) = parse_value(rest)?;
+    Some((PLine::Sample(name, None, v), rest))
+}
+fn parse_text(text: &str) -> Option<Vec<PLine>> {
+    let cs: Vec<char> = text.chars().collect();
+    let mut s = &cs[..];
+    let mut out = vec![];
+    while !s.is_empty() { let (l, r) = parse_line(s)?; out.push(l); s = r; }
+    Some(out)
+}
+fn hex(s: &str) -> String { s.bytes().map(|b| format!("{b:02x}")).collect() }
+fn xhex(s: &str) -> String { format!("x{}", hex(s)) }
+fn unxhex(s: &str) -> Option<String> {
+    let h = s.strip_prefix('x')?;
+    if h.len() % 2 != 0 { return None; }
+    let b: Option<Vec<u8>> = (0..h.len() / 2).map(|i| u8::from_str_radix(&h[2 * i..2 * i + 2], 16).ok()).collect();
+    String::from_utf8(b?).ok()
+}
+fn show_parse(p: &Option<Vec<PLine>>) -> String {
+    match p {
+        None => "parse=fail".into(),
+        Some(ls) => {
+            let pairs: Vec<&(String, String)> = ls.iter().flat_map(|l| match l { PLine::Sample(_, Some(v), _) => v.iter().collect::<Vec<_>>(), _ => vec![] }).collect();
+            let samples = ls.iter().filter(|l| matches!(l, PLine::Sample(..))).count();
+            format!("parse=ok lines={} samples={} pairs={} values={}", ls.len(), samples, pairs.len(), join(pairs.iter().map(|p| format!("{}={}", hex(&p.0), hex(&p.1))), ","))
+        }
+    }
+}
+fn duplicate_meta(ls: &[PLine]) -> Option<String> {
+    let (mut h, mut t) = (BTreeSet::new(), BTreeSet::new());
+    for l in ls {
+        match l {
+            PLine::Help(n, _) => if !h.insert(n.clone()) { return Some(n.clone()); },
+            PLine::Type(n, _) => if !t.insert(n.clone()) { return Some(n.clone()); },
+            _ => {}
+        }
+    }
+    None
+}
+
+// ------------------------------------------------------------------ p cases
+#[derive(Clone, Debug)]
+struct PRec { suffix: Option<String>, value: String, labels: Option<Vec<(String, String)>> }
+#[derive(Clone, Debug)]
+struct PCall { name: String, help: String, ty: char, unit: u8, unit_name: Option<String>, recs: Vec<PRec> }
+
+fn unit_of(u: u8) -> (MetricUnit, &'static str) {
+    match u { 0 => (MetricUnit::Second, "seconds"), 1 => (MetricUnit::Millisecond, "milliseconds"), 2 => (MetricUnit::Microsecond, "microseconds"),
+        3 => (MetricUnit::Byte, "bytes"), 4 => (MetricUnit::Total, "total"), 5 => (MetricUnit::State, "state"), _ => (MetricUnit::Info, "info") }
+}
+fn type_of(t: char) -> MetricType {
+    match t { 'c' => MetricType::Counter, 'g' => MetricType::Gauge, 'h' => MetricType::Histogram, 's' => MetricType::Summary, _ => MetricType::Text }
+}
+fn leak(s: &str) -> &'static str { Box::leak(s.to_string().into_boxed_str()) }
+
+fn pcase_line(calls: &[PCall]) -> String {
+    let o = |s: &Option<String>| s.as_ref().map(|s| xhex(s)).unwrap_or("-".into());
+    format!("p|{}", join(calls.iter().map(|c| format!("{},{},{},{},{},{}", xhex(&c.name), xhex(&c.help), c.ty, c.unit, o(&c.unit_name),
+        join(c.recs.iter().map(|r| format!("{}:{}:{}", o(&r.suffix), xhex(&r.value), match &r.labels {
+            None => "-".to_string(), Some(ls) => join(ls.iter().map(|(n, v)| format!("{}={}", xhex(n), xhex(v))), "&") })), "/"))), ";"))
+}
+fn parse_pcase(line: &str) -> Option<Vec<PCall>> {
+    let body = line.strip_prefix("p|")?;
+    if body.is_empty() { return Some(vec![]); }
+    let o = |s: &str| -> Option<Option<String>> { if s == "-" { Some(None) } else { unxhex(s).map(Some) } };
+    body.split(';').map(|c| {
+        let f: Vec<&str> = c.split(',').collect();
+        if f.len() != 6 { return None; }
+        let recs: Option<Vec<PRec>> = if f[5].is_empty() { Some(vec![]) } else { f[5].split('/').map(|r| {
+            let g: Vec<&str> = r.split(':').collect();
+            if g.len() != 3 { return None; }
+            let labels = if g[2] == "-" { None } else if g[2].is_empty() { Some(vec![]) } else {
+                Some(g[2].split('&').map(|p| { let (n, v) = p.split_once('=')?; Some((unxhex(n)?, unxhex(v)?)) }).collect::<Option<Vec<_>>>()?) };
+            Some(PRec { suffix: o(g[0])?, value: unxhex(g[1])?, labels })
+        }).collect() };
+        Some(PCall { name: unxhex(f[0])?, help: unxhex(f[1])?, ty: f[2].chars().next()?, unit: f[3].parse().ok()?, unit_name: o(f[4])?, recs: recs? })
+    }).collect()
+}
+
+fn render_real(calls: &[PCall]) -> Result<String, String> {
+    let calls = calls.to_vec();
+    std::panic::catch_unwind(move || {
+        let mut target = Target::new(OutputFormat::Prometheus);
+        for c in &calls {
+            let metric = Metric::new(leak(&c.name), leak(&c.help), type_of(c.ty), unit_of(c.unit).0);
+            target.append(&metric, c.unit_name.as_deref(), |records| {
+                for r in &c.recs {
+                    match (&r.labels, &r.suffix) {
+                        (None, None) => records.value(r.value.clone()),
+                        (None, Some(s)) => records.suffixed_value(r.value.clone(), Some(s)),
+                        (Some(ls), suf) => {
+                            let refs: Vec<(&str, &str)> = ls.iter().map(|(n, v)| (n.as_str(), v.as_str())).collect();
+                            match suf { None => records.label_value(&refs, r.value.clone()), Some(s) => records.suffixed_label_value(&refs, r.value.clone(), Some(s)) }
+                        }
+                    }
+                }
+            });
+        }
+        target.into_string()
+    }).map_err(|_| "panic".to_string())
+}
+
+fn needs_escape(s: &str) -> bool { s.contains('"') || s.contains('\\') || s.contains('\n') }
+
+/// The sample lines the calls must produce, from the calls alone.
+fn expected_samples(calls: &[PCall]) -> Vec<(String, Vec<(String, String)>, String)> {
+    let mut out = vec![];
+    for c in calls {
+        if c.ty == 't' { continue; }
+        for r in &c.recs {
+            let mut name = format!("rotonda_{}_{}", c.name, unit_of(c.unit).1);
+            if let Some(s) = &r.suffix { name.push('_'); name.push_str(s); }
+            let mut ls = vec![];
+            if let Some(u) = &c.unit_name { ls.push(("component".to_string(), u.clone())); }
+            if let Some(l) = &r.labels { ls.extend(l.iter().cloned()); }
+            out.push((name, ls, r.value.clone()));
+        }
+    }
+    out
+}
+
+fn run_pcase(calls: &[PCall]) -> (String, String, String, bool) {
+    let case = pcase_line(calls);
+    let text = match render_real(calls) { Ok(t) => t, Err(e) => return (case, e.clone(), format!("fail panic:metrics.rs:target-append {e}"), false) };
+    let parsed = parse_text(&text);
+    let imp = format!("{} {}", xhex(&text), show_parse(&parsed));
+    let nasty = calls.iter().any(|c| c.unit_name.as_deref().is_some_and(needs_escape)
+        || c.recs.iter().any(|r| r.labels.as_ref().is_some_and(|l| l.iter().any(|(_, v)| needs_escape(v)))));
+    let want = expected_samples(calls);
+    let oracle = match &parsed {
+        None => if nasty { format!("fail {ESC_SIG} the text does not parse") } else { "fail prometheus-text-unparsable".to_string() },
+        Some(ls) => {
+            let got: Vec<(String, Vec<(String, String)>, String)> = ls.iter().filter_map(|l| match l { PLine::Sample(n, v, x) => Some((n.clone(), v.clone().unwrap_or_default(), x.clone())), _ => None }).collect();
+            if got != want {
+                if nasty { format!("fail {ESC_SIG} the text parses into different labels than were supplied") } else { "fail prometheus-samples-differ".to_string() }
+            } else if let Some(n) = duplicate_meta(ls) { format!("fail {DUP_SIG} {n}") } else { "ok".into() }
+        }
+    };
+    let nt = nasty || calls.len() >= 2;
+    (case, imp, oracle, nt)
+}
+
+// ------------------------------------------------------------------ w cases
+#[derive(Clone, Debug, PartialEq)]
+enum Ev {
+    Accept { c: usize, ip: usize },
+    Msg { c: usize, spec: Spec },
+    Unparsed { c: usize },
+    Fault { c: usize, kind: char }, // n f e s p
+    Sub { slot: usize, direct: bool, susp: bool },
+    Suspend(usize), Unsuspend(usize), Unsub(usize), Kill(usize),
+}
+
+const TEMPLATES: &[&str] = &["{sys_name}", "R{sys_name}", "bmp-{sys_name}-{router_ip}"];
+fn label_of(tmpl: usize, ingress_id: u32) -> String {
+    TEMPLATES[tmpl].replace("{sys_name}", &ingress_id.to_string()).replace("{router_ip}", "IP").replace("{router_port}", "PORT")
+}
+
+fn ev_token(e: &Ev) -> Option<String> {
+    Some(match e {
+        Ev::Accept { c, ip } => format!("+{c}.{ip}.{ip}"),
+        Ev::Msg { c, spec } => format!("{c}:{}", bmp::build(spec)?.token),
+        Ev::Unparsed { c } => format!("{c}!u"),
+        Ev::Fault { c, kind } => format!("{c}!{kind}"),
+        Ev::Sub { slot, direct, susp } => format!("L+{slot}.{}{}", if *direct { 'd' } else { 'q' }, if *susp { 's' } else { 'a' }),
+        Ev::Suspend(s) => format!("Ls{s}"), Ev::Unsuspend(s) => format!("Ln{s}"), Ev::Unsub(s) => format!("Lx{s}"), Ev::Kill(s) => format!("Lk{s}"),
+    })
+}
+fn parse_ev(t: &str) -> Option<Ev> {
+    if let Some(r) = t.strip_prefix("L+") {
+        let (slot, k) = r.split_once('.')?;
+        let k: Vec<char> = k.chars().collect();
+        return Some(Ev::Sub { slot: slot.parse().ok()?, direct: k.first()? == &'d', susp: k.get(1)? == &'s' });
+    }
+    if let Some(r) = t.strip_prefix('+') { let p: Vec<&str> = r.split('.').collect(); return Some(Ev::Accept { c: p.first()?.parse().ok()?, ip: p.get(2)?.parse().ok()? }); }
+    for (p, f) in [("Ls", Ev::Suspend as fn(usize) -> Ev), ("Ln", Ev::Unsuspend), ("Lx", Ev::Unsub), ("Lk", Ev::Kill)] {
+        if let Some(r) = t.strip_prefix(p) { return Some(f(r.parse().ok()?)); }
+    }
+    if let Some((c, tok)) = t.split_once(':') { return Some(Ev::Msg { c: c.parse().ok()?, spec: bmp::parse_token(tok)? }); }
+    let (c, k) = t.split_once('!')?;
+    let c = c.parse().ok()?;
+    match k { "u" => Some(Ev::Unparsed { c }), "n" | "f" | "e" | "s" | "p" => Some(Ev::Fault { c, kind: k.chars().next()? }), _ => None }
+}
+
+/// What the engine knows about one connection, from what it sent.
+struct ConnRef {
+    conn: Conn, rid: usize, live: bool, started: bool, terminated: bool, up: BTreeSet<usize>,
+    recv: [u64; 7], processed: u64, invalid: u64, ioerr: u64,
+    /// another connection with the same router id ended while this one was live
+    disturbed: bool,
+}
+enum LinkObj { Q(Link), D(DirectLink) }
+/// `flag`: the link's own `suspended` field (what `Link::suspend` looks at); `sink`: the only strong reference to a direct link's target.
+struct LinkRef { obj: LinkObj, connected: bool, flag: bool, alive: bool, seen: usize, sink: Option<Arc<Sink>> }
+
+#[derive(Clone, Default, PartialEq, Debug)]
+struct Snap { acc: u64, lost: u64, bound: u64, clients: Option<u64>, g: (u64, u64, u64, bool), routers: BTreeMap<usize, [u64; 10]>, slots: (usize, usize), problems: Vec<String> }
+
+fn show_snap(s: &Snap) -> String {
+    let cl = s.clients.map(|c| c.to_string()).unwrap_or("P".into());
+    let rs = if s.routers.is_empty() { "-".to_string() } else {
+        join(s.routers.iter().map(|(r, v)| format!("{r}[{};{};{};{}]", join(v[..7].iter(), ","), v[7], v[8], v[9])), "/") };
+    format!("a{}l{}b{}c{cl}|g{}.{}.{}.{}|{rs}|s{}.{}", s.acc, s.lost, s.bound, s.g.0, s.g.1, s.g.2, s.g.3 as u8, s.slots.0, s.slots.1)
+}
+
+const TYPE_NAMES: [&str; 7] = ["Route Monitoring", "Statistics Report", "Peer Down Notification", "Peer Up Notification", "Initiation Message", "Termination Message", "Route Mirroring Message"];
+
+fn snapshot(w: &World, labels: &BTreeMap<String, usize>) -> Snap {
+    use std::sync::atomic::Ordering::SeqCst;
+    let mut s = Snap::default();
+    s.acc = w.bmp_in_metrics.connection_accepted_count.load(SeqCst) as u64;
+    s.lost = w.bmp_in_metrics.connection_lost_count.load(SeqCst) as u64;
+    s.bound = w.bmp_in_metrics.listener_bound_count.load(SeqCst) as u64;
+    let (st, _) = w.graph_status();
+    s.clients = st.and_then(|t| t.lines().next().and_then(|l| l.strip_prefix("clients: ").and_then(|n| n.parse().ok())));
+    s.g = (w.gate_metrics.num_updates.load(SeqCst) as u64, w.gate_metrics.num_dropped_updates.load(SeqCst) as u64,
+        w.gate_metrics.update_set_size.load(SeqCst) as u64, w.gate_metrics.update.load().is_some());
+    s.slots = (w.gate_slots)();
+    let text = w.metrics_text();
+    let Some(lines) = parse_text(&text) else {
+        let bad = text.lines().find(|l| { let mut c: Vec<char> = l.chars().collect(); c.push('\n'); parse_line(&c).is_none() }).unwrap_or("?");
+        s.problems.push(format!("prometheus-text-unparsable {}", bad.replace(' ', "_")));
+        return s;
+    };
+    let pre = "rotonda_bmp_tcp_in_";
+    for l in &lines {
+        let PLine::Sample(name, ls, v) = l else { continue };
+        let v: i64 = v.parse().unwrap_or(-7);
+        let ls = ls.clone().unwrap_or_default();
+        let get = |k: &str| ls.iter().find(|(n, _)| n == k).map(|(_, v)| v.clone());
+        if get("component").as_deref() != Some("bmp-in") { s.problems.push(format!("prometheus-component-label {name}")); }
+        let rid = |s: &mut Snap| -> Option<usize> {
+            let lab = get("router")?;
+            match labels.get(&lab) { Some(r) => Some(*r), None => { s.problems.push(format!("prometheus-unexpected-router-label {}", lab.replace(' ', "_"))); None } }
+        };
+        let mut global = |s: &mut Snap, want: u64| if v != want as i64 { s.problems.push(format!("text-differs-from-atomic {name} {v} vs {want}")); };
+        match name.as_str() {
+            "rotonda_num_updates_total" => { let x = s.g.0; global(&mut s, x) },
+            "rotonda_num_dropped_updates_total" => { let x = s.g.1; global(&mut s, x) },
+            "rotonda_update_set_size_total" => { let x = s.g.2; global(&mut s, x) },
+            "rotonda_bmp_tcp_in_listener_bound_count_total" => { let x = s.bound; global(&mut s, x) },
+            "rotonda_bmp_tcp_in_connection_accepted_count_total" => { let x = s.acc; global(&mut s, x) },
+            "rotonda_bmp_tcp_in_connection_lost_count_total" => { let x = s.lost; global(&mut s, x) },
+            n if n == format!("{pre}num_bmp_messages_received_total") => {
+                if let (Some(r), Some(t)) = (rid(&mut s), get("msg_type").and_then(|t| TYPE_NAMES.iter().position(|x| *x == t))) { s.routers.entry(r).or_insert([0; 10])[t] = v as u64; }
+                else { s.problems.push("prometheus-unexpected-msg-type-label".into()); }
+            }
+            n if n == format!("{pre}num_bmp_messages_processed_total") => if let Some(r) = rid(&mut s) { s.routers.entry(r).or_insert([0; 10])[7] = v as u64; },
+            "rotonda_bmp_in_num_invalid_bmp_messages_total" => if let Some(r) = rid(&mut s) { s.routers.entry(r).or_insert([0; 10])[8] = v as u64; },
+            n if n == format!("{pre}num_receive_io_errors_total") => if let Some(r) = rid(&mut s) { s.routers.entry(r).or_insert([0; 10])[9] = v as u64; },
+            _ => {}
+        }
+    }
+    if s.g.3 != lines.iter().any(|l| matches!(l, PLine::Sample(n, _, _) if n == "rotonda_update_set_size_total")) { s.problems.push("text-differs-from-atomic update_set_size presence".into()); }
+    s
+}
+
+fn type_idx(s: &Spec) -> usize { match s { Spec::Rm(..) => 0, Spec::Stats(_) => 1, Spec::PeerDown(_) => 2, Spec::PeerUp(..) => 3, Spec::Init => 4, Spec::Term => 5, Spec::Mirror(_) => 6 } }
+
+/// Lets the accept loop (root gate) and every router task (gate clones) handle the commands a link sent. One worker
+/// thread: every yield runs all tasks that are ready.
+async fn settle_links() { for _ in 0..64 { tokio::task::yield_now().await; } }
+async fn settle_conn(c: &Conn) -> Option<bool> { tokio::time::timeout(Duration::from_secs(10), c.settled()).await.ok() }
+
+fn count_update(u: &Update, last_bulk: &mut Option<usize>) { if let Update::Bulk(b) = u { *last_bulk = Some(b.len()); } }
+
+struct WorldOut { obs: Vec<String>, unknown: Vec<String>, known: Vec<String>, flags: BTreeSet<&'static str> }
+
+async fn world_case(tmpl: usize, evs: Vec<Ev>) -> WorldOut {
+    let mut out = WorldOut { obs: vec![], unknown: vec![], known: vec![], flags: BTreeSet::new() };
+    let template = if tmpl == 0 { None } else { Some(TEMPLATES[tmpl].to_string()) };
+    let w = World::with_queue_len(512, false, template, TracingMode::Off).await;
+    let mut conns: BTreeMap<usize, ConnRef> = BTreeMap::new();
+    let mut links: BTreeMap<usize, LinkRef> = BTreeMap::new();
+    let mut labels: BTreeMap<String, usize> = BTreeMap::new();
+    let mut prev = snapshot(&w, &labels);
+    let mut last_bulk: Option<usize> = Some(0);
+    let mut agent = w.agent.clone();
+    for ev in evs {
+        let (mut need_min, mut need_max) = (0u64, 0u64);
+        let mut ended_rid: Option<usize> = None;
+        let mut stuck = false;
+        match &ev {
+            Ev::Accept { c, ip } => {
+                let addr: SocketAddr = format!("10.9.{ip}.1:{}", 2000 + c).parse().unwrap();
+                let conn = match tokio::time::timeout(Duration::from_secs(10), w.connect(addr)).await { Ok(c) => c, Err(_) => { out.obs.push("stuck".into()); out.unknown.push("engine-stuck accept".into()); break; } };
+                if let Some(id) = w.router_ingress_id(addr.ip()) { labels.insert(label_of(tmpl, id), *ip); } else { out.unknown.push("no-router-ingress-id".into()); }
+                if conns.values().any(|x| x.live && x.rid == *ip) { out.flags.insert("shared-rid"); }
+                conns.insert(*c, ConnRef { conn, rid: *ip, live: true, started: false, terminated: false, up: BTreeSet::new(), recv: [0; 7], processed: 0, invalid: 0, ioerr: 0, disturbed: false });
+            }
+            Ev::Msg { c, spec } => {
+                let Some(x) = conns.get_mut(c).filter(|x| x.live) else { out.obs.push(show_snap(&prev)); continue };
+                let built = bmp::build(spec).expect("buildable");
+                // the ledger, from the protocol rules
+                let violation = if !x.started { *spec != Spec::Init } else if x.terminated { true } else {
+                    match spec { Spec::Rm(h, _) | Spec::PeerDown(h) => !x.up.contains(h), Spec::PeerUp(h, _) => x.up.contains(h), _ => false } };
+                x.recv[type_idx(spec)] += 1;
+                x.processed += 1;
+                let mut ends = false;
+                if violation { x.invalid += 1; out.flags.insert("invalid"); } else {
+                    match spec {
+                        Spec::Init => x.started = true,
+                        Spec::Term => { x.terminated = true; ends = true; need_max += 1; if !x.up.is_empty() { need_min += 1; } x.up.clear(); }
+                        Spec::PeerUp(h, _) => { x.up.insert(*h); }
+                        Spec::PeerDown(h) => { x.up.remove(h); need_min += 1; need_max += 1; }
+                        Spec::Rm(..) => {
+                            // an UPDATE that carries routes must be passed on; End-of-RIB markers / empty UPDATEs may or may not be
+                            let f: Vec<&str> = built.token.split('.').collect();
+                            need_max += 1;
+                            if f[3] == "-" && f[5].parse::<u32>().unwrap_or(0) + f[6].parse::<u32>().unwrap_or(0) > 0 { need_min += 1; }
+                        }
+                        _ => {}
+                    }
+                }
+                if ends { need_min += 2; need_max += 2; x.live = false; ended_rid = Some(x.rid); }
+                x.conn.push(Item::Data(built.bytes.to_vec()));
+                match settle_conn(&x.conn).await { None => stuck = true, Some(done) => if done != ends { out.unknown.push(format!("connection-{}", if done { "closed-unexpectedly" } else { "still-open-after-termination" })); } }
+            }
+            Ev::Unparsed { c } => {
+                let Some(x) = conns.get_mut(c).filter(|x| x.live) else { out.obs.push(show_snap(&prev)); continue };
+                x.ioerr += 1;
+                x.conn.push(Item::Data(vec![3, 0, 0, 0, 6, 9]));
+                match settle_conn(&x.conn).await { None => stuck = true, Some(done) => if done { out.unknown.push("connection-closed-unexpectedly".into()); } }
+            }
+            Ev::Fault { c, kind } => {
+                let Some(x) = conns.get_mut(c).filter(|x| x.live) else { out.obs.push(show_snap(&prev)); continue };
+                x.ioerr += 1;
+                let fatal = *kind != 'n';
+                match kind {
+                    'n' => x.conn.push(Item::Fault(std::io::ErrorKind::TimedOut)),
+                    'f' => x.conn.push(Item::Fault(std::io::ErrorKind::ConnectionReset)),
+                    'e' => x.conn.push(Item::Eof),
+                    's' => x.conn.push(Item::Data(vec![3, 0, 0, 0, 3])),
+                    _ => { x.conn.push(Item::Data(vec![3, 0, 0])); x.conn.push(Item::Eof); }
+                }
+                if fatal { need_min += 2; need_max += 2; x.live = false; ended_rid = Some(x.rid); out.flags.insert("lost"); }
+                match settle_conn(&x.conn).await { None => stuck = true, Some(done) => if done != fatal { out.unknown.push(format!("connection-{}", if done { "closed-unexpectedly" } else { "still-open-after-fatal-error" })); } }
+            }
+            Ev::Sub { slot, direct, susp } => {
+                if links.contains_key(slot) { out.obs.push(show_snap(&prev)); continue; }
+                let sink = Arc::new(Sink::default());
+                let (obj, ok, sink) = if *direct {
+                    let mut dl = DirectLink::from(agent.create_link());
+                    let t: Arc<dyn AnyDirectUpdate> = sink.clone();
+                    let ok = tokio::time::timeout(Duration::from_secs(10), dl.connect(t, *susp)).await.map(|r| r.is_ok()).unwrap_or(false);
+                    (LinkObj::D(dl), ok, Some(sink))
+                } else {
+                    let mut l = agent.create_link();
+                    let ok = tokio::time::timeout(Duration::from_secs(10), l.connect(*susp)).await.map(|r| r.is_ok()).unwrap_or(false);
+                    (LinkObj::Q(l), ok, None)
+                };
+                if !ok { out.unknown.push("link-connect-failed".into()); }
+                links.insert(*slot, LinkRef { obj, connected: ok, flag: *susp, alive: true, seen: 0, sink });
+            }
+            Ev::Suspend(s) => {
+                // `Link::suspend` itself does nothing when the link's flag is set
+                if let Some(l) = links.get_mut(s).filter(|l| l.connected) {
+                    match &mut l.obj { LinkObj::Q(q) => q.suspend().await, LinkObj::D(d) => d.suspend().await }
+                    l.flag = true;
+                }
+            }
+            Ev::Unsuspend(s) => {
+                if let Some(l) = links.get_mut(s).filter(|l| l.connected) {
+                    match &mut l.obj { LinkObj::Q(q) => vg::link_unsuspend(q).await, LinkObj::D(d) => vg::direct_link_unsuspend(d).await }
+                    l.flag = false;
+                }
+            }
+            Ev::Unsub(s) => {
+                if let Some(l) = links.get_mut(s).filter(|l| l.connected) {
+                    match &mut l.obj { LinkObj::Q(q) => q.disconnect().await, LinkObj::D(d) => d.disconnect().await }
+                    l.connected = false;
+                }
+            }
+            Ev::Kill(s) => {
+                if let Some(l) = links.get_mut(s).filter(|l| l.connected) {
+                    if let LinkObj::Q(q) = &mut l.obj { q.close() }
+                    l.sink = None; // the gate holds a Weak only
+                    l.alive = false;
+                }
+            }
+        }
+        if stuck { out.obs.push("stuck".into()); out.unknown.push("engine-stuck handler does not settle (panic in the router task?)".into()); break; }
+        settle_links().await;
+        if let Some(r) = ended_rid { for x in conns.values_mut() { if x.live && x.rid == r { x.disturbed = true; } } }
+
+        // ---- what every link received during this event
+        let mut deltas: BTreeMap<usize, usize> = BTreeMap::new();
+        let mut bulk_seen: Option<usize> = None;
+        for (k, l) in links.iter_mut() {
+            let mut n = 0;
+            match &mut l.obj {
+                LinkObj::Q(q) => { if l.connected && l.alive { while let Some(Ok(u)) = q.query().now_or_never() { n += 1; count_update(&u, &mut bulk_seen); } } }
+                LinkObj::D(..) => if let Some(sink) = &l.sink { let got = sink.updates.lock().unwrap(); n = got.len() - l.seen; for u in &got[l.seen..] { count_update(u, &mut bulk_seen); } l.seen = got.len(); },
+            }
+            deltas.insert(*k, n);
+        }
+        let receivers: Vec<usize> = deltas.iter().filter(|(_, n)| **n > 0).map(|(k, _)| *k).collect();
+        let snap = snapshot(&w, &labels);
+        out.obs.push(show_snap(&snap));
+
+        // ---- the oracle
+        out.unknown.extend(snap.problems.iter().cloned());
+        let live = conns.values().filter(|x| x.live).count() as u64;
+        if snap.acc != conns.len() as u64 { out.unknown.push(format!("metrics-disagree:accepted {} want {}", snap.acc, conns.len())); }
+        if snap.lost != conns.len() as u64 - live { out.unknown.push(format!("metrics-disagree:lost {} want {}", snap.lost, conns.len() as u64 - live)); }
+        if snap.bound != 1 { out.unknown.push(format!("metrics-disagree:bound {}", snap.bound)); }
+        match snap.clients { None => out.unknown.push("gauge-underflow clients (status_text panicked)".into()), Some(c) => if c != live { out.unknown.push(format!("metrics-disagree:clients {c} want {live}")); } }
+        if snap.acc < prev.acc || snap.lost < prev.lost || snap.bound < prev.bound || snap.g.0 < prev.g.0 || snap.g.1 < prev.g.1 { out.unknown.push("counter-decreased unit or gate counter".into()); }
+        // gate
+        let (dn, dd) = (snap.g.0 - prev.g.0.min(snap.g.0), snap.g.1 - prev.g.1.min(snap.g.1));
+        if dd > dn || snap.g.1 > snap.g.0 { out.unknown.push(format!("metrics-disagree:gate dropped {} exceeds updates {}", snap.g.1, snap.g.0)); }
+        if dn < need_min || dn > need_max { out.unknown.push(format!("metrics-disagree:gate-updates {dn} new updates, the traffic implies {need_min}..{need_max}")); }
+        if receivers.is_empty() {
+            // nobody received anything: every update of this event was dropped
+            if dd != dn { out.unknown.push(format!("metrics-disagree:gate-dropped {dd} of {dn} updates counted as dropped, no link received one")); }
+            if dn > 0 { out.flags.insert("dropped"); last_bulk = None; }
+        } else {
+            if dd != 0 { out.unknown.push(format!("metrics-disagree:gate-dropped {dd} updates counted as dropped although link {} received them", receivers[0])); }
+            for k in &receivers { if deltas[k] as u64 != dn { out.unknown.push(format!("metrics-disagree:gate-updates counter moved by {dn}, link {k} received {}", deltas[k])); } }
+            if bulk_seen.is_some() { last_bulk = bulk_seen; }
+            out.flags.insert("delivered");
+        }
+        if let Some(b) = last_bulk { if snap.g.2 != b as u64 { out.unknown.push(format!("metrics-disagree:update_set_size {} want {b}", snap.g.2)); } }
+        if snap.g.3 != (snap.g.0 > 0) { out.unknown.push("metrics-disagree:last_update presence".into()); }
+        // per router
+        let rids: BTreeSet<usize> = conns.values().filter(|x| x.live).map(|x| x.rid).collect();
+        for r in rids {
+            let mut want = [0u64; 10];
+            let mut disturbed = false;
+            for x in conns.values().filter(|x| x.live && x.rid == r) {
+                for i in 0..7 { want[i] += x.recv[i]; }
+                want[7] += x.processed; want[8] += x.invalid; want[9] += x.ioerr;
+                disturbed |= x.disturbed;
+            }
+            let got = snap.routers.get(&r).copied().unwrap_or([0; 10]);
+            if got != want {
+                if disturbed { out.known.push(format!("{SHARED_SIG} router {r}: exported {got:?}, its live connection(s) delivered {want:?}")); }
+                else {
+                    let f = (0..10).find(|i| got[*i] != want[*i]).unwrap();
+                    let name = match f { 0..=6 => "received", 7 => "processed", 8 => "invalid", _ => "io_errors" };
+                    out.unknown.push(format!("metrics-disagree:{name} router {r}: exported {got:?}, the traffic implies {want:?}"));
+                }
+            }
+            // a router that stayed connected over this event: nothing may go down
+            if ended_rid != Some(r) || conns.values().any(|x| x.live && x.rid == r) {
+                if let Some(p) = prev.routers.get(&r) {
+                    if (0..10).any(|i| got[i] < p[i]) {
+                        if ended_rid == Some(r) { out.known.push(format!("{SHARED_SIG} router {r}: counters went from {p:?} to {got:?} while a connection of it stayed up")); }
+                        else { out.unknown.push(format!("counter-decreased router {r}: {p:?} -> {got:?}")); }
+                    }
+                }
+            }
+        }
+        prev = snap;
+    }
+    // ---- end of case: the exposition-level rule (one HELP / TYPE per metric name)
+    if let Some(ls) = parse_text(&w.metrics_text()) { if let Some(n) = duplicate_meta(&ls) { out.known.push(format!("{DUP_SIG} {n}")); } }
+    if conns.len() >= 2 { out.flags.insert("two-connections"); }
+    w.runner.abort();
+    out
+}
+
+fn run_wcase(tmpl: usize, evs: &[Ev], rec: &mut Recorder) -> Option<(String, String, String, bool)> {
+    let toks: Option<Vec<String>> = evs.iter().map(ev_token).collect();
+    let case = format!("w|{tmpl}|{}|{}", join(bmp::key_classes(), ","), join(toks?, " "));
+    let rt = tokio::runtime::Builder::new_multi_thread().worker_threads(1).enable_all().build().unwrap();
+    let evs2 = evs.to_vec();
+    let res = rt.block_on(async move { tokio::spawn(world_case(tmpl, evs2)).await });
+    rt.shutdown_timeout(Duration::from_millis(200));
+    let out = match res { Ok(o) => o, Err(_) => return Some((case, "panic".into(), "fail panic:engine-task".into(), false)) };
+    for k in &out.known { rec.bump(&format!("known.{}", k.split_whitespace().next().unwrap())); }
+    for f in &out.flags { rec.bump(&format!("w.{f}")); }
+    let oracle = match (out.unknown.first(), out.known.first()) { (Some(u), _) => format!("fail {u}"), (None, Some(k)) => format!("fail {k}"), _ => "ok".into() };
+    let nt = ["two-connections", "lost", "invalid", "delivered", "dropped"].iter().all(|f| out.flags.contains(f));
+    Some((case, join(out.obs, " "), oracle, nt))
+}
+
+// ------------------------------------------------------------------ generators
+const RM_OK: &[&str] = &["a1", "a3", "w1", "w2", "x2", "A2", "W1", "e4", "e6"];
+
+fn gen_world(rng: &mut Rng, long: bool) -> (usize, Vec<Ev>) {
+    let tmpl = if rng.chance(7, 10) { 0 } else { 1 + rng.below(2) as usize };
+    let len = if long { rng.range(40, 90) } else { rng.range(6, 40) } as usize;
+    let nip = rng.range(1, 3) as usize;
+    let share = rng.chance(1, 4); // allow a second live connection from an address that already has one
+    let mut evs = vec![];
+    // generator-side guess of the state (only steers the distribution)
+    struct G { ip: usize, live: bool, started: bool, up: Vec<usize> }
+    let mut cs: Vec<G> = vec![];
+    let mut slots: Vec<(usize, bool, bool, bool)> = vec![]; // slot, connected, active, alive
+    let mut link_cmds = 0;
+    while evs.len() < len {
+        let live: Vec<usize> = (0..cs.len()).filter(|i| cs[*i].live).collect();
+        let r = rng.below(100);
+        if live.is_empty() || (r < 6 && cs.len() < 6) {
+            let ip = rng.below(nip as u64) as usize;
+            if !share && cs.iter().any(|g| g.live && g.ip == ip) { if live.is_empty() { continue; } } else {
+                evs.push(Ev::Accept { c: cs.len(), ip });
+                cs.push(G { ip, live: true, started: false, up: vec![] });
+                continue;
+            }
+        }
+        if r < 18 {
+            // link events (at most 12 subscribe / unsubscribe commands per case: every router task holds a gate clone
+            // whose command queue of 16 is never read)
+            let k = rng.below(10);
+            let pick = |rng: &mut Rng, v: &Vec<(usize, bool, bool, bool)>| if v.is_empty() { None } else { Some(rng.below(v.len() as u64) as usize) };
+            if (k < 4 || slots.is_empty()) && link_cmds < 12 && slots.len() < 4 {
+                let slot = slots.len();
+                let susp = rng.chance(1, 4);
+                evs.push(Ev::Sub { slot, direct: rng.chance(2, 3), susp });
+                slots.push((slot, true, !susp, true));
+                link_cmds += 1;
+            } else if let Some(i) = pick(rng, &slots) {
+                let s = &mut slots[i];
+                if !s.1 { continue; }
+                match k { 4 | 5 => { evs.push(Ev::Suspend(s.0)); s.2 = false; } 6 | 7 => { evs.push(Ev::Unsuspend(s.0)); s.2 = true; }
+                    8 => { evs.push(Ev::Kill(s.0)); s.3 = false; } _ => if link_cmds < 12 { evs.push(Ev::Unsub(s.0)); s.1 = false; link_cmds += 1; } }
+            }
+            continue;
+        }
+        if live.is_empty() { continue; }
+        let c = *rng.pick(&live);
+        let g = &mut cs[c];
+        let any_h = rng.below(NHDR as u64) as usize;
+        let up_h = if g.up.is_empty() { any_h } else { *rng.pick(&g.up) };
+        let e = if !g.started && rng.chance(9, 10) { g.started = true; Ev::Msg { c, spec: Spec::Init } }
+            else if r < 24 { Ev::Unparsed { c } }
+            else if r < 28 { Ev::Fault { c, kind: 'n' } }
+            else if r < 34 { g.live = false; Ev::Fault { c, kind: *rng.pick(&['f', 'e', 'e', 's', 'p']) } }
+            else if r < 38 { if g.started { g.live = false; } Ev::Msg { c, spec: Spec::Term } }
+            else if r < 52 { if !g.up.contains(&any_h) { g.up.push(any_h); } Ev::Msg { c, spec: Spec::PeerUp(any_h, rng.chance(1, 2)) } }
+            else if r < 62 { let h = if rng.chance(5, 6) { up_h } else { any_h }; g.up.retain(|x| *x != h); Ev::Msg { c, spec: Spec::PeerDown(h) } }
+            else if r < 90 { let h = if rng.chance(9, 10) { up_h } else { any_h }; Ev::Msg { c, spec: Spec::Rm(h, rng.pick(RM_OK).to_string()) } }
+            else if r < 94 { Ev::Msg { c, spec: Spec::Stats(any_h) } }
+            else if r < 97 { Ev::Msg { c, spec: Spec::Mirror(any_h) } }
+            else { Ev::Msg { c, spec: Spec::Init } };
+        evs.push(e);
+    }
+    (tmpl, evs)
+}
+
+const NAMES: &[&str] = &["num_updates", "bmp_tcp_in_connection_lost_count", "m", "a:b", "X_9", "bmp_state_machine_state"];
+const HELPS: &[&str] = &["the number of updates sent through the gate", "h", "", "per cent: 100% (of what?) {x}", "two  spaces # and a hash"];
+const LNAMES: &[&str] = &["router", "msg_type", "topic", "l_1", "_x"];
+const SUFFIXES: &[&str] = &["count", "sum", "bucket"];
+const VALUES: &[&str] = &["0", "1", "17", "-1", "18446744073709551615", "007"];
+
+fn gen_string(rng: &mut Rng, nasty: bool) -> String {
+    let plain = ["bmp-in", "2", "rib-in-pre", "Route Monitoring", "10.0.0.1", "", "mqtt/topic", "x{y}z", "a=b,c", "ünï-cødé", "per cent %", "#1"];
+    if !nasty { return rng.pick(&plain).to_string(); }
+    let alphabet = ['"', '\\', '\n', 'a', 'b', ' ', '{', '}', ',', '=', 'n', 'é', '"', '\\'];
+    let n = rng.range(1, 7);
+    (0..n).map(|_| *rng.pick(&alphabet)).collect()
+}
+
+fn gen_prom(rng: &mut Rng) -> Vec<PCall> {
+    let n = rng.range(1, 4);
+    let nasty_case = rng.chance(1, 2);
+    let mut calls: Vec<PCall> = vec![];
+    for _ in 0..n {
+        if !calls.is_empty() && rng.chance(1, 5) { let mut c = calls[0].clone(); for r in &mut c.recs { r.value = rng.pick(VALUES).to_string(); } calls.push(c); continue; }
+        let unit_name = if rng.chance(1, 6) { None } else { let n = nasty_case && rng.chance(1, 4); Some(gen_string(rng, n)) };
+        let nrec = rng.range(0, 3);
+        let recs = (0..nrec).map(|_| {
+            let labels = if rng.chance(1, 3) { None } else {
+                let k = rng.range(0, 3);
+                Some((0..k).map(|_| { let n = nasty_case && rng.chance(1, 2); (rng.pick(LNAMES).to_string(), gen_string(rng, n)) }).collect())
+            };
+            PRec { suffix: if rng.chance(1, 5) { Some(rng.pick(SUFFIXES).to_string()) } else { None }, value: rng.pick(VALUES).to_string(), labels }
+        }).collect();
+        calls.push(PCall { name: rng.pick(NAMES).to_string(), help: rng.pick(HELPS).to_string(), ty: *rng.pick(&['c', 'g', 'c', 'g', 'h', 's', 't']), unit: rng.below(7) as u8, unit_name, recs });
+    }
+    calls
+}
+
+fn lv(n: &str, v: &str) -> (String, String) { (n.to_string(), v.to_string()) }
+fn simple_call(unit: &str, labels: Vec<(String, String)>) -> PCall {
+    PCall { name: "m".into(), help: "h".into(), ty: 'c', unit: 4, unit_name: Some(unit.into()), recs: vec![PRec { suffix: None, value: "1".into(), labels: Some(labels) }] }
+}
 
 fn main() {
-    let rt = tokio::runtime::Builder::new_multi_thread().worker_threads(1).enable_all().build().unwrap();
-    rt.block_on(async { tokio::spawn(async {
-        let w = World::new(true, None, TracingMode::Off).await;
-        let c = w.connect("10.1.1.1:1000".parse().unwrap()).await;
-        println!("--- after connect\n{}", w.metrics_text());
-        for s in [Spec::Init, Spec::PeerUp(0, true), Spec::Rm(0, "a3".into()), Spec::PeerDown(1)] {
-            let b = bmp::build(&s).unwrap();
-            c.push(Item::Data(b.bytes.to_vec()));
-            let done = c.settled().await;
-            println!("--- after {} done={done}\n{}", b.token, w.metrics_text());
+    std::panic::set_hook(Box::new(|_| {}));
+    let args = parse_args();
+    let t0 = Instant::now();
+    let mut rec = Recorder::new("a w case (one BMP unit: accept loop, router handlers, links on its gate) is non-trivial if it has at least two connections, a connection that ended, a message rejected as a lifecycle violation, a gate update delivered to a link and one dropped; a p case (Target::append calls) is non-trivial if a label value or unit name contains a quote, backslash or newline, or it has at least two append calls");
+    let emit_w = |tmpl: usize, evs: &[Ev], rec: &mut Recorder| -> Option<String> {
+        match run_wcase(tmpl, evs, rec) { Some((c, i, o, nt)) => { rec.case(c, i.clone(), o, nt); Some(i) } None => { rec.bump("unbuildable-skipped"); None } }
+    };
+    let emit_p = |calls: &[PCall], rec: &mut Recorder| -> String { let (c, i, o, nt) = run_pcase(calls); rec.case(c, i.clone(), o, nt); i };
+
+    if let Some(path) = &args.replay {
+        for line in replay_cases(path) {
+            if line.starts_with("p|") { match parse_pcase(&line) { Some(c) => { emit_p(&c, &mut rec); } None => rec.bump("unparsable-replay-line") } continue; }
+            let parts: Vec<&str> = line.split('|').collect();
+            let evs: Option<Vec<Ev>> = parts.get(3).and_then(|m| m.split_whitespace().map(parse_ev).collect());
+            match (parts.get(1).and_then(|t| t.parse::<usize>().ok()).filter(|t| *t < TEMPLATES.len()), evs) { (Some(t), Some(e)) => { emit_w(t, &e, &mut rec); } _ => rec.bump("unparsable-replay-line") }
         }
-        c.push(Item::Eof);
-        let done = c.settled().await;
-        println!("--- after eof done={done}\n{}", w.metrics_text());
-        println!("sunk {} slots {:?}", w.num_sunk_updates(), (w.gate_slots)());
-        let c2 = w.connect("10.1.1.1:1001".parse().unwrap()).await;
-        c2.push(Item::Data(bmp::build(&Spec::Init).unwrap().bytes.to_vec()));
-        c2.settled().await;
-        println!("--- reconnect\n{}", w.metrics_text());
-    }).await.unwrap() });
+        rec.finish(&args, t0.elapsed().as_secs_f64());
+        return;
+    }
+
+    // ---- witnesses first
+    // (a) the label-value witness of the Lean counterexample: does `Target` escape a quote?
+    let w = emit_p(&[simple_call("u", vec![lv("a", "b\"c")])], &mut rec);
+    rec.variant("promescape", if w.contains(&hex("b\\\"c")) { "repaired" } else { "as-written" });
+    // (b) injection: the value closes its quotes and adds a label of its own
+    emit_p(&[simple_call("u", vec![lv("a", "x\",evil=\"1")])], &mut rec);
+    emit_p(&[simple_call("u\nrotonda_fake 1", vec![])], &mut rec);
+    emit_p(&[simple_call("u", vec![lv("a", "tail\\")])], &mut rec);
+    // (c) two appends of one metric (what `append_per_router_metric` does per router)
+    emit_p(&[simple_call("u", vec![lv("router", "1")]), simple_call("u", vec![lv("router", "2")])], &mut rec);
+    // (d) clean calls
+    emit_p(&[simple_call("bmp-in", vec![lv("router", "2"), lv("msg_type", "Route Monitoring")]), PCall { name: "since_last_update".into(), help: "the number of seconds since the last update".into(), ty: 'g', unit: 0, unit_name: Some("bmp-in".into()), recs: vec![PRec { suffix: None, value: "-1".into(), labels: None }] },
+        PCall { name: "last_update".into(), help: "the date and time of the last update".into(), ty: 't', unit: 6, unit_name: Some("bmp-in".into()), recs: vec![PRec { suffix: None, value: "N/A".into(), labels: None }] },
+        PCall { name: "metric_assemble_duration".into(), help: "the time taken in milliseconds to assemble the last metric snapshot".into(), ty: 'g', unit: 1, unit_name: None, recs: vec![PRec { suffix: None, value: "3".into(), labels: None }] }], &mut rec);
+    use Spec::*;
+    let rm = |h: usize, k: &str| Rm(h, k.to_string());
+    let m = |c: usize, spec: Spec| Ev::Msg { c, spec };
+    // (e) two live connections from one address: the end of one deletes the other's counters
+    emit_w(0, &[Ev::Accept { c: 0, ip: 0 }, Ev::Accept { c: 1, ip: 0 }, m(0, Init), m(1, Init), Ev::Fault { c: 0, kind: 'e' }, m(1, Stats(0))], &mut rec);
+    // (f) one router, all event kinds, a link that comes, is suspended, resumed, dies
+    emit_w(0, &[Ev::Accept { c: 0, ip: 0 }, m(0, PeerUp(0, true)), m(0, Init), m(0, PeerUp(0, true)), m(0, rm(0, "a3")), Ev::Sub { slot: 0, direct: true, susp: false }, m(0, rm(0, "w2")),
+        Ev::Suspend(0), m(0, rm(0, "a1")), Ev::Unsuspend(0), m(0, rm(1, "a1")), Ev::Unparsed { c: 0 }, Ev::Fault { c: 0, kind: 'n' }, Ev::Kill(0), m(0, PeerDown(0)), m(0, Term),
+        Ev::Accept { c: 1, ip: 0 }, m(1, Init), m(1, Stats(0)), Ev::Fault { c: 1, kind: 'f' }], &mut rec);
+    // (g) two routers, a queue link and a suspended direct link
+    emit_w(1, &[Ev::Sub { slot: 0, direct: false, susp: false }, Ev::Sub { slot: 1, direct: true, susp: true }, Ev::Accept { c: 0, ip: 0 }, Ev::Accept { c: 1, ip: 1 }, m(0, Init), m(1, Init), m(1, PeerUp(1, false)),
+        m(1, rm(1, "x2")), m(0, Mirror(0)), Ev::Unsub(0), m(1, rm(1, "A2")), Ev::Unsuspend(1), m(1, rm(1, "e4")), m(1, Term), Ev::Fault { c: 0, kind: 'p' }], &mut rec);
+
+    // ---- random
+    let mut rng = Rng::new(args.seed);
+    let (n_w, n_long, n_p) = if args.thorough { (6000, 400, 60_000) } else { (500, 20, 6_000) };
+    for i in 0..n_w + n_long { let (t, e) = gen_world(&mut rng, i >= n_w); emit_w(t, &e, &mut rec); }
+    for _ in 0..n_p { let c = gen_prom(&mut rng); emit_p(&c, &mut rec); }
+    rec.finish(&args, t0.elapsed().as_secs_f64());
 }
